@@ -154,6 +154,9 @@ type SimPeer struct {
 	// lost with a connection the client itself had closed meanwhile does
 	// not make this node one of the responders).
 	cfAsked map[int32]bool
+	// cfAnsweredStops: stop blocks of the filter-header queries this node's
+	// answer reached the client for.
+	cfAnsweredStops map[chainhash.Hash]bool
 
 	fhCache map[chainhash.Hash]chainhash.Hash // block hash -> this node's filter header
 	ffCache map[chainhash.Hash]*gcs.Filter
@@ -654,6 +657,10 @@ func (p *SimPeer) onGetCFHeaders(m *wire.MsgGetCFHeaders) {
 		for h := from; h <= to; h++ {
 			p.cfAsked[h] = true
 		}
+		if p.cfAnsweredStops == nil {
+			p.cfAnsweredStops = map[chainhash.Hash]bool{}
+		}
+		p.cfAnsweredStops[stop.Hash] = true
 		if lied {
 			p.liedWhenAsked = true
 			p.liedStops = append(p.liedStops, stop)
